@@ -1,11 +1,13 @@
 package run
 
 import (
+	"bufio"
 	"crypto/sha256"
 	"encoding/binary"
 	"encoding/hex"
 	"encoding/json"
 	"fmt"
+	"io"
 	"os"
 	"os/exec"
 	"path/filepath"
@@ -34,6 +36,7 @@ type Parent struct {
 	lost      int
 	workers   int
 	restarts  int
+	hashFiles []string
 	aborts    int
 	abandoned bool
 	PhaseRes  [][]Result // per phase, per shard (for Finalizers)
@@ -71,11 +74,85 @@ func (p *Parent) mergeResult(r *Result, hashFile string) {
 	m.Violations = append(m.Violations, r.Violations...)
 	p.inconcl = append(p.inconcl, r.Inconcl...)
 	m.Notes = append(m.Notes, r.Notes...)
-	if b, err := os.ReadFile(hashFile); err == nil {
-		for i := 0; i+8 <= len(b); i += 8 {
-			p.distinct[binary.LittleEndian.Uint64(b[i:])] = struct{}{}
+	if hashFile != "" {
+		if st, err := os.Stat(hashFile); err == nil && st.Size() > 0 {
+			p.hashFiles = append(p.hashFiles, hashFile)
 		}
 	}
+}
+
+// countDistinct merges the sorted hash files of all workers and counts the
+// distinct values without holding them in memory.
+func (p *Parent) countDistinct() int64 {
+	type src struct {
+		f   *os.File
+		rd  *bufio.Reader
+		cur uint64
+		ok  bool
+	}
+	next := func(s *src) {
+		var b [8]byte
+		if _, err := io.ReadFull(s.rd, b[:]); err != nil {
+			s.ok = false
+			return
+		}
+		s.cur, s.ok = binary.LittleEndian.Uint64(b[:]), true
+	}
+	var srcs []*src
+	for _, name := range p.hashFiles {
+		f, err := os.Open(name)
+		if err != nil {
+			continue
+		}
+		s := &src{f: f, rd: bufio.NewReaderSize(f, 1<<16)}
+		next(s)
+		if s.ok {
+			srcs = append(srcs, s)
+		} else {
+			f.Close()
+		}
+	}
+	// a simple binary heap on cur
+	less := func(i, j int) bool { return srcs[i].cur < srcs[j].cur }
+	down := func(i, n int) {
+		for {
+			l := 2*i + 1
+			if l >= n {
+				return
+			}
+			m := l
+			if r := l + 1; r < n && less(r, l) {
+				m = r
+			}
+			if !less(m, i) {
+				return
+			}
+			srcs[i], srcs[m] = srcs[m], srcs[i]
+			i = m
+		}
+	}
+	n := len(srcs)
+	for i := n/2 - 1; i >= 0; i-- {
+		down(i, n)
+	}
+	var count int64
+	var last uint64
+	first := true
+	for n > 0 {
+		v := srcs[0].cur
+		if first || v != last {
+			count++
+			last, first = v, false
+		}
+		next(srcs[0])
+		if !srcs[0].ok {
+			srcs[0].f.Close()
+			srcs[0] = srcs[n-1]
+			n--
+		}
+		down(0, n)
+	}
+	return count
 }
 
 // RunWorker starts one worker process and waits for it. Extra environment
@@ -477,7 +554,7 @@ func ParentMain(chk Check, env Env) int {
 			lines = append(lines, fmt.Sprintf("  signature=%s: %s", v.Sig, clip(v.What, 400)))
 		}
 	}
-	nDistinct := int64(len(p.distinct)) + p.merged.DistinctN
+	nDistinct := p.countDistinct() + p.merged.DistinctN
 	if p.merged.CasesDone+p.lost < totalCases && len(p.inconcl) == 0 && !p.abandoned {
 		p.inconcl = append(p.inconcl, fmt.Sprintf("only %d of %d cases were executed", p.merged.CasesDone, totalCases))
 	}
@@ -739,11 +816,11 @@ func (p *Parent) coveragePass(maxw int) map[string]interface{} {
 	}
 	return map[string]interface{}{
 		"functions_unreached_count": nUnreached,
-		"workload":            "quick-tier cases of this check, -cover build, -coverpkg=github.com/gregoryv/mq",
-		"statements":          percent,
-		"functions":           total,
-		"functions_reached":   reached,
-		"functions_unreached": unreached,
-		"functions_partial":   partial,
+		"workload":                  "quick-tier cases of this check, -cover build, -coverpkg=github.com/gregoryv/mq",
+		"statements":                percent,
+		"functions":                 total,
+		"functions_reached":         reached,
+		"functions_unreached":       unreached,
+		"functions_partial":         partial,
 	}
 }
